@@ -81,7 +81,8 @@ def check_fit(res, info, n, m0, max_dist, clusters, rec):
 
 def check_tree(res, info, n, linkage, all_finite):
     def bad(clause, **kw):
-        res.violations.append(dict(info, clause=clause, linkage=[[int(a), int(b), float(d)] for a, b, d, _ in linkage], **kw))
+        res.violations.append(dict(info, clause=clause, linkage=[[None if a is None else int(a), None if b is None else int(b),
+                                                                 float(d)] for a, b, d, _ in linkage], **kw))
     ch = []
     for i, (a, b, d, _) in enumerate(linkage):
         if a is None or b is None or not (0 <= a < n + i) or not (0 <= b < n + i):
@@ -227,6 +228,8 @@ def run(ctx):
                 res.violations.append(dict(info, clause="tree fit returns a partition"))
             op2 = {"op": "hier", "n": n, "flat": flat}          # tree resets max_dist to infinity
             mo2 = ctx.driver.run([op2])[0]
+            if any(a is None or b is None for a, b, _, _ in link1):
+                continue        # already reported by check_tree
             if [[int(a), int(b)] for a, b, _, _ in link1] != mo2["linkage"] or \
                     [int(SC * d) for _, _, d, _ in link1] != [x[2] for x in mo2["merges"]]:
                 res.mismatches.append(dict(info, what="tree linkage differs from the Lean model",
